@@ -13,7 +13,8 @@ RULE = ("plugin lists up to length 3 (4 thorough) over kinds {init, document, me
         "compared with the model; one plugin raising at each stage; non-trivial = at least two plugins of the same "
         "kind or a reply that stops the pipeline early; distinct = distinct (plugin list, setting, reply)"
         ' ; plus: plugins deriving from several plugin classes, hooks raising TransportError'
-        ' ; hook methods defined on the plugin class, a base class, a mixin or the instance')
+        ' ; hook methods defined on the plugin class, a base class, a mixin or the instance'
+        ' ; pretty-printed requests; plugin objects that compare equal')
 ASSUMPTIONS = []
 PARTIAL = []
 TRUSTED = []
